@@ -7,7 +7,8 @@ MODEL = "C08"
 MODEL_QUALID = "Model.Budget.run_script"
 FORMAT = ("[kind 0=token-bucket 1=AIMD-budget 2/3=the same two built by RetryBudgetBuilder and used through "
           "Arc<dyn RetryBudget>; p0..p5 (tb: max_tokens, initial_tokens, (kind 2) 1 = initial_tokens not set | "
-          "aimd: min_budget, max_budget, deposit_amount, withdraw_amount, decrease factor num, den); npre; "
+          "aimd: min_budget (kind 3: -1 = not set, the builder's default floor), max_budget, deposit_amount, "
+          "withdraw_amount, decrease factor num, den); npre; "
           "(code arg)*; nthreads; {ncalls; (code arg)*}*; nsched; thread-id*]  call codes 0 try_withdraw 1 deposit "
           "2 balance() 3 current_max() (kinds 0,2,3: balance()); each schedule entry = ONE atomic operation of that "
           "worker (finished workers are skipped), afterwards worker 0 runs to completion, then worker 1, ... -> "
@@ -36,9 +37,9 @@ TRUSTED = [
     "used above 1000",
 ]
 ASSUMPTIONS = ["0 <= initial_tokens, max_tokens, amounts <= usize::MAX = 2^64-1 (64-bit target); "
-               "min_budget <= max_budget (AimdController::new panics otherwise -- mind the builder's default "
-               "min_budget = 10: RetryBudgetBuilder::new().aimd().max_budget(5).build() panics; scripts always "
-               "set all five AIMD parameters)",
+               "an explicitly set min_budget <= max_budget (AimdController::new panics otherwise: a configuration "
+               "error documented by the panic); an UNSET min_budget defaults to min(10, max_budget) (/repo cf1b0d8; "
+               "before, .aimd().max_budget(n).build() panicked for n < 10) -- kind 3 with p0 = -1 drives it",
                "TokenBucketBudget::new: sizes above (2^64-1)/1000 tokens saturate at u64::MAX thousandths "
                "(defined behaviour since /repo a863e6a, modelled exactly); saturating adds are modelled exactly"]
 
@@ -153,6 +154,10 @@ def corpus():
         out.append(mk(1, [1, mxb, 2, mxb, 1, 1], [W, W, M, D, B], [[D, B], [W, M]], [0, 1, 0, 1, 0, 0, 0, 1, 0, 0, 1]))
         out.append(mk(3, [0, mxb, 1, U64, 1, 1], [W, D, B], [[D, B], [W, B]], [0, 1, 0, 1, 0, 0, 0, 1, 0, 0, 1]))
     out.append(mk(1, [0, 1 << 63, 1, U64, 1, 2], [W, M, W, M], [[D, B], [W, M]], [0, 1, 0, 1, 0, 0, 0, 1, 0, 0, 1]))
+    # builder with only max_budget set below the default floor 10 (before /repo cf1b0d8 build() panicked: min > max)
+    for mxb in (0, 1, 4, 9, 10, 11):
+        out.append(mk(3, [-1, mxb, 1, 5, 0, 1], [W, D, B], [[D, B], [W, B]], [0, 1, 0, 1, 0, 0, 0, 1, 0, 0, 1]))
+    out.append(mk(3, [-1, 5, 2, 1, 1, 2], [W] * 6, [[D, W], [D, B]], [0, 0, 0, 1, 1, 1, 0, 0, 1, 0]))
     # the builder route with deposit_amount != withdraw_amount (an exchange of the two in
     # AimdBudgetBuilder::build grants retries that were never funded)
     out.append(mk(3, [1, 4, 1, 2, 1, 2], [W, W, B], [[D, W], [D, B]], [0, 0, 0, 1, 1, 1, 0, 0, 1, 0]))
@@ -225,6 +230,8 @@ def rand_script(rng):
             amount = rng.choice([0, 1, 1, 2, 5, mx + 3])
             w = rng.choice([1, 1, 2, 3, 0, mx, mx + 1])
             pre = [W] * rng.choice([0, 0, mx, mx // 2, mx + 2 if mx < 10 else 0])
+        if kind == 3 and rng.random() < 0.4:
+            mn = -1                      # min_budget left unset
         params = (mn, mx, amount, w, num, den)
         alpha = [W, W, W, D, D, B, M]
         per_call = 5
@@ -455,6 +462,9 @@ def monitor(s, t):
         bal0 = min(init, mx)            # the funded initial balance: never above the configured maximum
     else:
         mn, mxb, amount, cost = params[0], params[1], params[2], params[3]
+        if mn < 0:                      # kind 3, min_budget not set: the default floor never exceeds the maximum
+            mn = min(10, mxb)
+            params = [mn] + list(params[1:])
         cap, bal0 = mxb, mxb
     reads_max = kind == 1               # call code 3 = current_max() only on the concrete AimdBudget
     check_ceiling = kind == 1           # the dyn object has no ceiling accessor
@@ -575,6 +585,8 @@ def classify(s, t):
             out.append("aimd_big_max")
         if params[2] >= 1 << 32:
             out.append("aimd_big_amount")
+        if params[0] < 0:
+            out.append("builder_min_unset")
         if params[3] == 0:
             out.append("withdraw_amount_0")
         if params[3] > params[1]:
